@@ -46,4 +46,10 @@ struct Codes {
 		return table[slot];
 	}
 };
+
+// R-INIT (static): a function-local static initialised from a parameter keeps the first call's value
+inline uint32_t CachedLength(uint32_t height) {
+	static const uint32_t length = 32 * height;
+	return length;
+}
 }
